@@ -166,9 +166,14 @@ func (c *RecConn) Write(p []byte) (int, error) {
 }
 
 func (c *RecConn) Close() error {
-	c.Closes.Add(1)
+	k := c.Closes.Add(1)
 	c.log("close", 0, nil)
-	return c.Conn.Close()
+	err := c.Conn.Close()
+	if k > 1 && err == nil {
+		// like a socket: closing a connection that is already closed is an error (net.Pipe says nothing)
+		return &net.OpError{Op: "close", Net: "mem", Err: net.ErrClosed}
+	}
+	return err
 }
 
 // RemoteAddr is unique per connection.
